@@ -2,6 +2,6 @@
 # tools/sweep.sh <listfile> [parallel] : lines "patch PROP expected_exit" ; runs tools/mutcheck.sh for each and tabulates.
 list=$1; par=${2:-3}
 mkdir -p /verif/.work/sweep
-run() { p=$1; prop=$2; exp=$3; out=/verif/.work/sweep/$(basename $p .diff)_$prop.log; /verif/tools/mutcheck.sh /verif/$p $prop > $out 2>&1; rc=$?; st=OK; [ "$rc" != "$exp" ] && st=UNEXPECTED; echo "$st rc=$rc expected=$exp $p $prop :: $(grep -m1 -E 'counterexample|INCONCLUSIVE' $out | cut -c1-160)"; }
+run() { p=$1; prop=$2; exp=$3; out=/verif/.work/sweep/$(echo $p | tr / _)_$prop.log; /verif/tools/mutcheck.sh /verif/$p $prop > $out 2>&1; rc=$?; st=OK; [ "$rc" != "$exp" ] && st=UNEXPECTED; echo "$st rc=$rc expected=$exp $p $prop :: $(grep -m1 -E 'counterexample|INCONCLUSIVE' $out | cut -c1-160)"; }
 export -f run
 grep -v '^#' $list | grep . | xargs -P $par -L 1 bash -c 'run $0 $1 $2'
